@@ -48,10 +48,28 @@ static const uint64_t C17_SMALL[3][160] = {
     {R5(100), R5(200), R5(300), R5(400), R5(500), R5(600), R5(700), R5(800), R5(900), R5(1000), R5(1100), R5(1200), R5(1300), R5(1400), R5(1500), R5(1600), R5(1700), R5(1800), R5(1900), R5(2000),
      R5(2100), R5(2200), R5(2300), R5(2400), R5(2500), R5(2600)}};
 static uint64_t C17_LARGE[3][C17_LARGE_N];
-const uint64_t *C17_IN[C17_NIN] = {C17_SMALL[0], C17_SMALL[1], C17_SMALL[2], C17_LARGE[0], C17_LARGE[1], C17_LARGE[2]};
-const size_t C17_INN[C17_NIN] = {21, 21, 130, C17_LARGE_N, C17_LARGE_N, C17_LARGE_N};
-const size_t C17_INBYTES[C17_NIN] = {sizeof C17_SMALL[0], sizeof C17_SMALL[1], sizeof C17_SMALL[2], sizeof C17_LARGE[0], sizeof C17_LARGE[1], sizeof C17_LARGE[2]};
+static uint64_t C17_MEDIUM[3][C17_MEDIUM_N];
+const uint64_t *C17_IN[C17_NIN] = {C17_SMALL[0], C17_SMALL[1], C17_SMALL[2], C17_LARGE[0], C17_LARGE[1], C17_LARGE[2], C17_MEDIUM[0], C17_MEDIUM[1], C17_MEDIUM[2]};
+const size_t C17_INN[C17_NIN] = {21, 21, 130, C17_LARGE_N, C17_LARGE_N, C17_LARGE_N, C17_MEDIUM_N, C17_MEDIUM_N, C17_MEDIUM_N};
+const size_t C17_INBYTES[C17_NIN] = {sizeof C17_SMALL[0], sizeof C17_SMALL[1], sizeof C17_SMALL[2], sizeof C17_LARGE[0], sizeof C17_LARGE[1], sizeof C17_LARGE[2], sizeof C17_MEDIUM[0], sizeof C17_MEDIUM[1], sizeof C17_MEDIUM[2]};
+uint8_t C17_REC[64] __attribute__((aligned(8)));
+void c17_reset_record(void) {
+    memset(C17_REC, 0x5a, sizeof C17_REC);
+    /* slots 0 and 1: 3-byte external varints at bytes 0..2 and 3..5; slots 2 and 3: 3-byte tagged varints at 16..18 and 19..21;
+     * slots 4 and 5: a 5-byte external at 32..36 and a 3-byte external at 37..39 */
+    varintExternalPutFixedWidth(C17_REC + 0, 1000, VARINT_WIDTH_24B);
+    varintExternalPutFixedWidth(C17_REC + 3, 70000, VARINT_WIDTH_24B);
+    varintTaggedPut64(C17_REC + 16, 3000);
+    varintTaggedPut64(C17_REC + 19, 60000);
+    varintExternalPutFixedWidth(C17_REC + 32, 5000000000ULL, VARINT_WIDTH_40B);
+    varintExternalPutFixedWidth(C17_REC + 37, 9, VARINT_WIDTH_24B);
+}
 void c17_init_inputs(void) {
+    for (size_t i = 0; i < C17_MEDIUM_N; i++) {
+        C17_MEDIUM[0][i] = 1000000 + (i * 7919) % 900;          /* dense, ~900 distinct values */
+        C17_MEDIUM[1][i] = i * 5 + i % 3;                       /* strictly increasing, < 65536 */
+        C17_MEDIUM[2][i] = ((i * 31) % 37) * 1000003 + (i % 499 == 0 ? (1ULL << 40) : 0);
+    }
     for (size_t i = 0; i < C17_LARGE_N; i++) {
         C17_LARGE[0][i] = 1000000 + (i * 7919) % 40000;       /* dense, unsorted, range < 65536, mostly distinct */
         C17_LARGE[1][i] = i * 5 + i % 3;                       /* strictly increasing, < 65536 */
@@ -535,6 +553,23 @@ static void op_large(c17_ctx *c) {
     o_u64(c, digest(c->dec, n * 8));
 }
 
+/* ---- record operations: in-place adds on one slot of the shared record */
+static void op_record(c17_ctx *c) {
+    static const int OFF[6] = {0, 3, 16, 19, 32, 37};
+    static const int WID[6] = {3, 3, 3, 3, 5, 3};
+    int slot = c->arg;
+    uint8_t *p = C17_REC + OFF[slot];
+    for (int k = 0; k < 3; k++) {
+        if (slot == 2 || slot == 3) {
+            o_u64(c, (uint64_t)varintTaggedAddNoGrow(p, k == 1 ? -1 : 2));
+        } else {
+            o_u64(c, (uint64_t)varintExternalAddNoGrow(p, (varintWidth)WID[slot], k == 1 ? -1 : 2));
+        }
+    }
+    o_bytes(c, p, (size_t)WID[slot]);
+}
+int c17_record_slot(int op) { return op >= C17_NALL && op < C17_NALL + C17_NREC ? C17_OPS[op].arg : -1; }
+
 #define OPS3(name, fn, arg) {name, fn, arg, 0}, {name, fn, arg, 1}, {name, fn, arg, 2}
 #define OPS2(name, fn, arg) {name, fn, arg, 0}, {name, fn, arg, 1}
 const c17_op C17_OPS[] = {
@@ -581,6 +616,26 @@ const c17_op C17_OPS[] = {
     OPSL("large analyze/stats", 7),
     OPSL("large bitmap", 8),
     OPSL("large float", 9),
+    /* medium operations (inputs 6, 7, 8: 2000 values - between the library's 1024 and 10000 size thresholds) */
+#define OPSM(name, arg) {name "[2000 dense]", op_large, arg, 6}, {name "[2000 increasing]", op_large, arg, 7}, {name "[2000 low-cardinality]", op_large, arg, 8}
+    OPSM("medium FOR", 0),
+    OPSM("medium PFOR(95)", 1),
+    OPSM("medium delta", 2),
+    OPSM("medium dict", 3),
+    OPSM("medium RLE", 4),
+    OPSM("medium BP128.64", 5),
+    OPSM("medium adaptive.auto", 6),
+    OPSM("medium analyze/stats", 7),
+    OPSM("medium bitmap", 8),
+    OPSM("medium float", 9),
+    /* record operations (see c17_ops.h) */
+    {"record: external 3-byte slot at +0", op_record, 0, 0},
+    {"record: external 3-byte slot at +3", op_record, 1, 0},
+    {"record: tagged 3-byte slot at +16", op_record, 2, 0},
+    {"record: tagged 3-byte slot at +19", op_record, 3, 0},
+    {"record: external 5-byte slot at +32", op_record, 4, 0},
+    {"record: external 3-byte slot at +37", op_record, 5, 0},
 };
-const int C17_NALL = (int)(sizeof C17_OPS / sizeof *C17_OPS);
-const int C17_NOPS = (int)(sizeof C17_OPS / sizeof *C17_OPS) - 30;
+const int C17_NREC = 6;
+const int C17_NALL = (int)(sizeof C17_OPS / sizeof *C17_OPS) - 6;
+const int C17_NOPS = (int)(sizeof C17_OPS / sizeof *C17_OPS) - 66;
